@@ -990,7 +990,8 @@ class WLook(World):
     for r in RL[-1:]:
       A(("upd L%d key=a" % r, [["UpdateRecord", "L", r, {"key": "a"}]]))
       A(("upd L%d s2=zz" % r, [["UpdateRecord", "L", r, {"s2": "zz"}]]))
-      A(("upd L%d lst=alt" % r, [["UpdateRecord", "L", r, {"lst": "txt"}]]))
+      # (alt text whose characters are themselves keys: a text cell must not be indexed by them)
+      A(("upd L%d lst=alt" % r, [["UpdateRecord", "L", r, {"lst": "ab"}]]))
       A(("upd L%d manualSort first" % r, [["UpdateRecord", "L", r, {"manualSort": 0.5}]]))
       A(("upd L%d key+s1" % r, [["UpdateRecord", "L", r, {"key": "a", "s1": 0}]]))
     A(("add L", [["AddRecord", "L", None, {"key": "a", "lst": ["L", "a"], "ref": 2, "s1": 1, "s2": "x"}]]))
@@ -1010,11 +1011,108 @@ class WLook(World):
 
 
 # --------------------------------------------------------------------------------------------
+# W_look2: life cycle of lookups (one referring row; sort columns removed / restored; order_by
+# switched and switched back; a column that appears later; undo as a step of the history)
+# --------------------------------------------------------------------------------------------
+
+def _look2_formulas(ob):
+  return {
+      "ids": 'list(L.lookupRecords(key=$x, order_by="%s").id)' % ob,
+      "first": 'L.lookupOne(key=$x, order_by="%s").id' % ob,
+      "hist": 'L.lookupRecords(key=$x, order_by="%s")' % ob,
+  }
+
+
+LOOK2_SETUP = [
+    [["AddTable", "L", [{"id": "key", "type": "Text"}, {"id": "s1", "type": "Int"},
+                        {"id": "s2", "type": "Int"}, {"id": "tags", "type": "ChoiceList"},
+                        {"id": "amt", "type": "Int"}]]],
+    [["BulkAddRecord", "L", [None] * 4, {"key": ["a", "b", "a", "a"], "s1": [2, 1, 1, 3],
+                                         "s2": [1, 2, 3, 0], "amt": [10, 20, 30, 40],
+                                         "tags": [["L", "a"], ["L", "b"], None, ["L", "a", "b"]]}]],
+    # ONE referring row: its cells are the ones whose evaluation creates each lookup index
+    [["AddTable", "D", [
+        {"id": "x", "type": "Text"}, {"id": "lim", "type": "Int"},
+        {"id": "cnt", "type": "Any", "isFormula": True, "formula": "len(L.lookupRecords(key=$x))"},
+        {"id": "ids", "type": "Any", "isFormula": True, "formula": _look2_formulas("s1")["ids"]},
+        {"id": "first", "type": "Any", "isFormula": True, "formula": _look2_formulas("s1")["first"]},
+        {"id": "hist", "type": "RefList:L", "isFormula": True, "formula": _look2_formulas("s1")["hist"]},
+        {"id": "cur", "type": "Any", "isFormula": True, "formula": "$hist.find.le($lim).amt"},
+        {"id": "zz", "type": "Any", "isFormula": True, "formula": "list(L.lookupRecords(key=$x).zz)"},
+        {"id": "has", "type": "Any", "isFormula": True,
+         "formula": "len(L.lookupRecords(tags=CONTAINS($x)))"},
+    ]]],
+    [["AddRecord", "D", None, {"x": "a", "lim": 2}]],
+]
+
+
+class WLook2(World):
+  name = 'W_look2'
+  setup = LOOK2_SETUP
+
+  def alphabet(self, doc):
+    out = []
+    A = out.append
+    if 'L' not in doc.eng.tables or 'D' not in doc.eng.tables:
+      return out
+    RL = rows(doc, 'L')
+    hl = lambda c: has_col(doc, 'L', c)
+    if RL:
+      r1 = RL[0]
+      A(("upd L first key=b", [["UpdateRecord", "L", r1, {"key": "b"}]]))
+      A(("upd L first tags=[b]", [["UpdateRecord", "L", r1, {"tags": ["L", "b"]}]]))
+      if hl('s1'):
+        A(("upd L first s1=5", [["UpdateRecord", "L", r1, {"s1": 5}]]))
+      A(("rem L first", [["RemoveRecord", "L", r1]]))
+    if len(RL) >= 3:
+      r3 = RL[2]
+      A(("upd L third key=a/b", [["UpdateRecord", "L", RL[1], {"key": "a"}]]))
+      if hl('s1'):
+        A(("upd L third s1=0", [["UpdateRecord", "L", r3, {"s1": 0}]]))
+      if hl('s2'):
+        A(("upd L third s2=9", [["UpdateRecord", "L", r3, {"s2": 9}]]))
+      A(("upd L third amt=7", [["UpdateRecord", "L", r3, {"amt": 7}]]))
+    add = {"key": "a", "s2": 5, "amt": 50}
+    if hl('s1'):
+      add["s1"] = 0
+    A(("add L key=a", [["AddRecord", "L", None, add]]))
+    if hl('s1'):
+      A(("remcol L.s1", [["RemoveColumn", "L", "s1"]]))
+    else:
+      A(("addcol L.s1 + fill", [["AddColumn", "L", "s1", {"type": "Int", "isFormula": False}],
+                                ["BulkUpdateRecord", "L", RL, {"s1": [(r * 2) % 3 for r in RL]}]]))
+    if not hl('zz'):
+      A(("addcol L.zz + fill", [["AddColumn", "L", "zz", {"type": "Int", "isFormula": False}],
+                                ["BulkUpdateRecord", "L", RL, {"zz": [r * 11 for r in RL]}]]))
+    rec = doc.eng.docmodel.columns.lookupOne(tableId='D', colId='ids')
+    cur = 's2' if rec and 'order_by="s2"' in rec.formula else 's1'
+    nxt = 's1' if cur == 's2' else 's2'
+    f = _look2_formulas(nxt)
+    A(("order_by -> other column", [["ModifyColumn", "D", c, {"formula": f[c]}] for c in ("ids", "first", "hist")]))
+    trec = doc.eng.docmodel.columns.lookupOne(tableId='L', colId='tags')
+    if trec:
+      A(("modcol L.tags Text/ChoiceList", [["ModifyColumn", "L", "tags", {
+          "type": "Text" if trec.type == 'ChoiceList' else "ChoiceList"}]]))
+    A(("upd D x=b/a", [["UpdateRecord", "D", 1, {
+        "x": "b" if doc.eng.tables['D'].get_column('x').raw_get(1) == 'a' else "a"}]]))
+    A(("upd D lim=1", [["UpdateRecord", "D", 1, {"lim": 1}]]))
+    g = getattr(doc, 'last_group', None)
+    if g is not None and g.undo:
+      A(("undo last", [["ApplyUndoActions", H_undo(g)]]))
+    return out
+
+
+def H_undo(group):
+  from mc import harness as H
+  return H.undo_reprs(group)
+
+
+# --------------------------------------------------------------------------------------------
 # World sets per property family
 # --------------------------------------------------------------------------------------------
 
 ALL = {'W_rec': WRec, 'W_schema': WSchema, 'W_sum': WSum, 'W_2way': W2Way, 'W_trig': WTrig,
-       'W_look': WLook, 'W_sumsum': WSumSum, 'W_pos': WPos, 'W_names': WNames}
+       'W_look': WLook, 'W_sumsum': WSumSum, 'W_pos': WPos, 'W_names': WNames, 'W_look2': WLook2}
 
 
 def make(names):
@@ -1023,18 +1121,18 @@ def make(names):
 
 def history_worlds(tier):
   """Worlds for the document-wide differential oracles (C01, C02, C03, C07)."""
-  return make(['W_rec', 'W_schema', 'W_sum', 'W_2way', 'W_trig', 'W_look'])
+  return make(['W_rec', 'W_schema', 'W_sum', 'W_2way', 'W_trig', 'W_look', 'W_look2'])
 
 
 def formula_worlds(tier):
-  return make(['W_rec', 'W_schema', 'W_sum', 'W_2way', 'W_look'])
+  return make(['W_rec', 'W_schema', 'W_sum', 'W_2way', 'W_look', 'W_look2'])
 
 
 def depths(tier):
   """Depth per world for the document-wide oracles (all worlds in one run)."""
   if tier == 'quick':
-    return {'W_rec': 2, 'W_schema': 2, 'W_sum': 1, 'W_2way': 1, 'W_trig': 2, 'W_look': 1}
-  return {'W_rec': 3, 'W_schema': 2, 'W_sum': 2, 'W_2way': 2, 'W_trig': 3, 'W_look': 2}
+    return {'W_rec': 2, 'W_schema': 2, 'W_sum': 1, 'W_2way': 1, 'W_trig': 2, 'W_look': 1, 'W_look2': 3}
+  return {'W_rec': 3, 'W_schema': 2, 'W_sum': 2, 'W_2way': 2, 'W_trig': 3, 'W_look': 2, 'W_look2': 4}
 
 
 def depths_for(names, quick=2, thorough=3, overrides=None):
